@@ -838,10 +838,121 @@ let main_xdr file =
     done with End_of_file -> ());
   Printf.printf "DONE values=%d malformed=%d accepted=%d rejected=%d bad=%d\n" !nx !ny !nacc !nrej !bad
 
+
+(* ---------- concurrent histories (C03): linearizability search with the extracted reference ---------- *)
+type hop = { hc : int; hinv : int; hret : int; hcall : call option; hname : ostring; hrep : oreply option; hbad : ostring }
+
+let main_conc file =
+  let ic = open_in file in
+  let params = ref { p_name_max = N0; p_maxfilesize = N0; p_wtmax = N0; p_ninode = N0 } in
+  let sz = ref N0 in
+  let st = ref (init_afs true) in
+  let disk = ref empty_disk in
+  let call = ref None and oreply = ref None and cname = ref "" in
+  let phase = ref 0 in               (* 0 set-up, 1 history, 2 final *)
+  let hist = ref [] and cur = ref None in
+  let txn_bad = ref [] and ntxn = ref 0 in
+  let ended = ref "" in
+  let flush_h () = match !cur with
+    | Some (c, i, r) ->
+      hist := { hc = c; hinv = i; hret = r; hcall = !call; hname = !cname; hrep = !oreply; hbad = "" } :: !hist; cur := None; call := None; oreply := None
+    | None -> () in
+  (try while true do
+      let line = input_line ic in
+      let toks = split_on ' ' line in
+      match toks with
+      | "I" :: s :: un :: nm :: mfs :: wt :: ni :: _ ->
+        sz := n_of_string s;
+        params := { p_name_max = n_of_string nm; p_maxfilesize = n_of_string mfs; p_wtmax = n_of_string wt; p_ninode = n_of_string ni };
+        st := init_afs (un = "1")
+      | "C" :: rest -> (match rest with _ :: nm :: _ -> cname := nm | _ -> ()); call := Some (parse_call rest)
+      | "R" :: rest -> oreply := Some (fst (parse_reply rest)); if !phase = 1 then flush_h ()
+      | "X" :: what :: _ ->
+        if !phase = 1 then begin
+          (match !cur with Some (c, i, r) -> hist := { hc = c; hinv = i; hret = r; hcall = !call; hname = !cname; hrep = None; hbad = what } :: !hist | None -> ());
+          cur := None; call := None end
+      | "D" :: a :: d :: _ ->
+        let b = if d = "z" then zeros (n_of_int 4096) else bytes_of_hex d in
+        disk := disk_set !disk (n_of_string a) b
+      | "E" :: _ ->
+        if !phase = 0 then begin
+          (match !call, !oreply with
+           | Some c, Some o -> let (s', _) = step !params !st c (hint_of c o) in st := s'
+           | _ -> ());
+          call := None; oreply := None end
+      | "M" :: "conc-begin" :: _ -> phase := 1
+      | "M" :: "conc-end" :: how :: _ -> phase := 2; ended := how
+      | "H" :: c :: i :: r :: _ -> cur := Some (int_of_string c, int_of_string i, int_of_string r)
+      | "LT" :: rest ->
+        incr ntxn;
+        let evs = List.filter_map (fun tok ->
+            if Stdlib.String.length tok < 2 then None else
+            let k = tok.[0] in
+            let body = Stdlib.String.sub tok 1 (Stdlib.String.length tok - 1) in
+            let a = match split_on ':' body with [_; a] -> a | _ -> "0" in
+            match k with
+            | 'a' -> Some (TAcq (n_of_string a)) | 'r' -> Some (TRel (n_of_string a))
+            | 'c' -> Some (TCommit (a = "1")) | 'd' -> Some (TCommitted (a = "1"))
+            | 'x' -> Some TAbort | 'f' -> Some TFlush | 'g' -> Some (TFlushed (a = "1"))
+            | 'n' -> Some (TFresh (n_of_string a)) | _ -> None) rest in
+        let acqs = Stdlib.String.concat ">" (List.filter_map (function TAcq i -> Some (string_of_int (int_of_n i)) | _ -> None) evs) in
+        if not (asc_f [] [] evs) then txn_bad := ("lock-order(" ^ acqs ^ ")") :: !txn_bad;
+        if not (commit_phase_b N0 evs) then txn_bad := ("commit-phase(" ^ acqs ^ ")") :: !txn_bad;
+        if not (balanced_b [] evs) then txn_bad := ("lock-leak(" ^ acqs ^ ")") :: !txn_bad
+      | _ -> ()
+    done with End_of_file -> ());
+  let ops = Array.of_list (List.rev !hist) in
+  let n = Array.length ops in
+  let crashed = List.filter (fun o -> o.hbad <> "") (Array.to_list ops) in
+  List.iter (fun o -> Printf.printf "N crash BAD client=%d %s %s\n" o.hc o.hname o.hbad) crashed;
+  List.iter (fun b -> Printf.printf "N txn BAD %s\n" b) (List.sort_uniq compare !txn_bad);
+  if !ended <> "ok" then Printf.printf "N end BAD %s\n" !ended;
+  (* final state of the implementation *)
+  let ar = abs_disk !params.p_name_max !params.p_maxfilesize !sz true !disk in
+  if crashed = [] && !ended = "ok" then begin
+    if ar.r_errs <> [] then Printf.printf "N final BAD wf=%s\n" (Stdlib.String.concat "," (List.map show_err (take 5 ar.r_errs)));
+    let nodes = ref 0 and budget = 400000 in
+    let deepest = ref 0 and deepest_stuck = ref "" in
+    let found = ref false in
+    let final_mismatch = ref "" in
+    let rec search (s : afs) (donev : bool array) (k : int) =
+      if !found || !nodes > budget then () else begin
+        incr nodes;
+        if k = n then begin
+          let mm = cmp_state s ar in
+          if mm = [] then found := true
+          else if !final_mismatch = "" then final_mismatch := Stdlib.String.concat "," (List.map show_mm (take 4 mm))
+        end else begin
+          (* an operation may come next if no other pending operation had returned before it was invoked *)
+          let minret = ref max_int in
+          Array.iteri (fun i o -> if not donev.(i) && o.hret < !minret then minret := o.hret) ops;
+          Array.iteri (fun i o ->
+              if not !found && not donev.(i) && o.hinv < !minret then begin
+                match o.hcall, o.hrep with
+                | Some c, Some r ->
+                  let (s', rr) = step !params s c (hint_of c r) in
+                  if agree s' rr r then begin
+                    donev.(i) <- true; search s' donev (k + 1); donev.(i) <- false
+                  end else if k >= !deepest then begin
+                    deepest := k;
+                    deepest_stuck := Printf.sprintf "client=%d:%s:expected=%s:observed_code=%d" o.hc o.hname (show_reply rr) (int_of_n (code_of r))
+                  end
+                | _ -> ()
+              end) ops
+        end
+      end in
+    search !st (Array.make n false) 0;
+    if !found then Printf.printf "N lin OK ops=%d nodes=%d txns=%d\n" n !nodes !ntxn
+    else if !nodes > budget then Printf.printf "N lin UNKNOWN ops=%d nodes=%d (search budget exhausted)\n" n !nodes
+    else Printf.printf "N lin BAD no-sequential-order-explains-the-history ops=%d nodes=%d deepest=%d stuck-at=%s final=%s\n" n !nodes !deepest !deepest_stuck !final_mismatch
+  end;
+  Printf.printf "DONE ops=%d txns=%d\n" n !ntxn
+
 let () =
   match Array.to_list Sys.argv with
   | _ :: "c15" :: file :: rest -> main_c15 file (rest = ["full"])
   | _ :: "crash" :: file :: _ -> main_crash file
+  | _ :: "conc" :: file :: _ -> main_conc file
   | _ :: "xdr" :: file :: _ -> main_xdr file
   | _ :: "simple" :: file :: _ -> main_simple file
   | _ :: "kvs" :: file :: _ -> main_kvs file
